@@ -177,6 +177,21 @@ reg("C10", "exploration",
     "DESIGN.md section 3, C10")
 
 
+reg("C11", "exploration",
+    "Generated-input search with recording privacy plug-ins supplied through the public puresnmp_plugins.priv namespace (a keyed "
+    "stream transform, and a block transform whose ciphertext is longer than the plaintext): for every request datagram of an "
+    "authPriv user the encrypted PDU must be byte-identical to a ciphertext the plug-in returned for vber-decodable scoped-PDU "
+    "bytes, msgPrivacyParameters must be the returned salt, the key handed to the plug-in must equal the independent RFC 3414 "
+    "localisation of the PRIVACY password with the user's AUTH hash to the discovered engine, boots/time must be the discovered "
+    "ones, marker strings (SET values, context name, requested OIDs) must not occur in the datagram, the reference agent (own "
+    "implementation of the transforms) must decrypt every request, and every encrypted response must be decrypted with the key "
+    "and the salt found in the message and yield the agent's answer. Multi-session cases rotate privacy passwords, switch the "
+    "hash and the engine for the same user name inside one process.",
+    "Trusts lib/vagent.py and the two harness plug-ins; no DES/AES plug-in ships with this repository.",
+    "Hypothesis property-based testing with recording plug-ins + an independent decrypting agent (round trip and differential key derivation)",
+    "DESIGN.md section 3, C11")
+
+
 def main():
     present = sorted(os.path.basename(p)[:3].upper()
                      for p in glob.glob(os.path.join(VERIF, "checks", "c[0-9][0-9]_*.py")))
